@@ -1052,10 +1052,11 @@ class TLSRecordLayer(object):
                 if recordHeader.type == ContentType.alert:
                     alert = Alert().parse(p)
                     raise TLSRemoteAlert(alert)
-            else:
                 # If we got some other message who know what
                 # the remote side is doing, just go ahead and
                 # raise the socket.error
+                raise
+            else:
                 raise
 
     def _getMsg(self, expectedType, secondaryType=None, constructorType=None):
